@@ -12,4 +12,4 @@ Extraction "trie_model.ml" m_step m_init s_step s_init m_wf
   ms_push ms_truncate ms_extend prepend_parts st_len it_next to_stem consumed_to_stem last_to_stem
   follow_iter iter_new stem_iter
   c_step c_init
-  as_step as_init sizes cur_checkpoint.
+  as_step as_init sizes cur_checkpoint root_tag_ok.
